@@ -632,6 +632,13 @@ func TestTable(t *testing.T) {
 			ir.Bin(ir.OpAnd, ir.Bin(op, ir.Lit(ir.Duration(7)), ir.Ext("duration", ir.Lit(ir.Str("7ms")))), ir.Is(P, "T0")),
 			ir.Bin(ir.OpAnd, ir.Bin(op, ir.Bin(ir.OpAdd, ir.Access(C, "a"), ir.Lit(ir.Long(1))), ir.Lit(ir.Long(2))), ir.Is(P, "T0")))
 	}
+	// `x is T in <failing>` whose left operand is not an unknown itself but an expression that depends on one (an `if`, an
+	// attribute of the unknown principal): the type test may still short-circuit once the unknown is bound
+	conds = append(conds,
+		ir.Un(ir.OpNot, ir.IsIn(ir.If(ir.Is(P, "T0"), R, P), "T0", bad)),
+		ir.IsIn(ir.If(ir.Bin(ir.OpEq, ir.Access(C, "a"), ir.Lit(ir.Long(1))), P, R), "T0", bad),
+		ir.Un(ir.OpNot, ir.IsIn(ir.Access(ir.RecE([]string{"e"}, []*ir.Expr{P}), "e"), "T1", bad)),
+		ir.Bin(ir.OpOr, ir.IsIn(ir.If(ir.Is(R, "T1"), P, R), "T1", bad), ir.Is(P, "T0")))
 	scopes := []func(p *ir.Policy){func(p *ir.Policy) {}, func(p *ir.Policy) { p.Principal = ir.ScopeIn(ir.Ent("T1", "g")) }, func(p *ir.Policy) {
 		p.Principal = ir.ScopeIsIn("T0", ir.Ent("T1", "g"))
 		p.Resource = ir.ScopeEq(ir.Ent("T1", "r"))
